@@ -18,11 +18,6 @@ Proof. reflexivity. Qed.
 Lemma c17_constants : c17_timeout_s = 10 * 60.
 Proof. reflexivity. Qed.
 
-(* ---------- the record that is durable after a list of effects ---------- *)
-Definition lp_acc (acc : option (string * swap_data)) (e : effect) : option (string * swap_data) :=
-  match e with EPersist s d true => Some (s, d) | _ => acc end.
-Definition lastp (acc : option (string * swap_data)) (es : list effect) := fold_left lp_acc es acc.
-
 Lemma last_persist_lastp es : last_persist es = lastp None es.
 Proof. reflexivity. Qed.
 
@@ -70,12 +65,7 @@ Proof.
   apply String.eqb_eq in H. subst. eauto.
 Qed.
 
-(* what the cancel path does, whatever the messenger answers *)
-Definition cancelled (m m' : machine) (res : result) (es : list effect) : Prop :=
-  res = mkResult true ErrNone /\ is_finished terminal (m_cur m') = true /\
-  existsb (is_cancel_to (d_peer (m_data m))) es = true /\
-  (forall acc, lastp acc es = Some (m_cur m', m_data m')) /\
-  forallb cancel_effect es = true.
+Notation cancelled := (cancelled terminal).
 
 Ltac ev_eqb H :=
   repeat match type of H with
